@@ -119,7 +119,11 @@ def diff_views(a, b):
 def graph_case(chk, i):
     rng = chk.rng("graph", i)
     lang = "cxx" if rng.random() < 0.8 else "c"
-    g = gen_graph.generate(rng, lang=lang)
+    if i % 3 == 2:
+        lang = "cxx"
+        g = gen_graph.generate_chain(rng)
+    else:
+        g = gen_graph.generate(rng, lang=lang)
     d = chk.dir("g%d" % (i % 32))
     ext = "hpp" if lang == "cxx" else "h"
     cargs = ["-std=c++17"] if lang == "cxx" else []
